@@ -607,6 +607,33 @@ def _access_atoms(t, params):
 _DATE_PARTS = {'month', 'day', 'dayofyear', 'day_of_year', 'dayofweek', 'day_of_week', 'weekday', 'week', 'quarter', 'is_month_end', 'is_month_start'}
 
 
+_INJECTIVE_METHS = {'isoformat', 'timestamp', 'toordinal', 'to_pydatetime', 'to_datetime64', 'tz_convert', 'astimezone', 'items', 'keys', 'values', 'copy', 'encode', 'hex'}
+_INJECTIVE_EXTS = {'TUPLE', 'STR', 'REPR', 'FROZENSET', 'LIST', 'SORTED', 'ID', 'pandas.Timestamp', 'builtins.id', 'builtins.repr', 'builtins.str', 'builtins.tuple', 'builtins.frozenset'}
+
+
+def _injective_atoms(K, params):
+    """access paths that the key carries WHOLE: as the key itself, as a component of a tuple key, or wrapped in a conversion that loses nothing (str, tuple,
+    isoformat, ...).  An argument that only goes into the key through a many-to-one computation (a bisection, a floor, a hash bucket, an arithmetic
+    expression) is not carried: many values of it share one key."""
+    out = set()
+
+    def walk(z):
+        if not isinstance(z, tuple) or not z:
+            return
+        a_ = _access_atoms(z, params)
+        if z in a_:
+            out.add(z)
+            return
+        if z[0] == 'tuple':
+            for y in z[1]:
+                walk(y)
+        elif z[0] == 'call' and ((z[1][0] == 'meth' and z[1][1] in _INJECTIVE_METHS) or (z[1][0] == 'ext' and z[1][1] in _INJECTIVE_EXTS)):
+            for y in z[2]:
+                walk(y)
+    walk(K)
+    return out
+
+
 def _determined(a, katoms):
     """the key atoms pin down what access path a denotes: the path itself or the object it is read from is in the key, or - calendar dates - the key holds the
     year together with month+day or the day of the year (a day of the year WITHOUT the year is the same in every year)"""
@@ -700,11 +727,21 @@ def memo_tables(ctx, fn, ps):
             if w.loc[0] == 'sub' and w.how == 'assign' and w.loc[1][0] == 'attr' and holder_chain(w.loc[1]) is not None:
                 writes.setdefault(w.loc[1][2], []).append((i, w))
                 tables[w.loc[1][2]] = w.loc[1]
+            elif w.loc[0] == 'sub' and w.how == 'assign' and w.loc[1][0] == 'attr' and w.loc[1][1][0] == 'mod':
+                # a table of the module: one for the whole process, so the object asking is an input like any parameter
+                writes.setdefault(w.loc[1][2], []).append((i, w))
+                tables[w.loc[1][2]] = w.loc[1]
     for m, ws in writes.items():
         table = tables[m]
-        if not _table_is_read(ctx.M, m):
+        module_level = table[1][0] == 'mod'
+        if module_level:
+            if not any(s_ == table for p in ps for t_ in ([c_ for c_, _, _ in p.conds] + ([p.value] if p.value is not None else [])) for s_ in T.subterms(t_)):
+                continue
+            if fn.cls is not None and not fn.is_static and 'self' not in params:
+                params = params + ['self']
+        elif not _table_is_read(ctx.M, m):
             continue        # entries are filed and nothing in the package ever looks one up: a record, not a memo
-        holders = set(holder_chain(table)[:-1])
+        holders = set(holder_chain(table)[:-1]) if not module_level else set()
         # the object the table belongs to, when it is not self (self._calendars[asset]): what selects it is not an input of the entries - another object, another table
         H_ = table[1]
         unhold = (lambda t_: T.replace(t_, lambda z: ('var', '@holder') if z == H_ else None)) if H_ != V('self') else (lambda t_: t_)
@@ -750,6 +787,8 @@ def memo_tables(ctx, fn, ps):
             p = ps[i]
             Kw = w.loc[2]
             kparams = {s_[1] for s_ in T.subterms(Kw) if s_[0] == 'var'}
+            if module_level:
+                kparams = kparams - {'self'} | ({'self'} if any(k_ == V('self') for k_ in (Kw[1] if Kw[0] == 'tuple' else (Kw,))) else set())
             katoms = _access_atoms(Kw, params)
             wv_ = unhold(w.value) if w.value is not None else w.value
             deps = {s_[1] for s_ in T.subterms(wv_) if s_[0] == 'var' and s_[1] in params}
@@ -759,6 +798,8 @@ def memo_tables(ctx, fn, ps):
                 if any(s_ == ('sub', table, Kw) for s_ in T.subterms(c)):
                     continue        # the look-up of the entry itself (EAFP form)
                 deps |= {s_[1] for s_ in T.subterms(unhold(c)) if s_[0] == 'var' and s_[1] in params}
+            if module_level:
+                deps.discard('self')        # (which of the object's fields the entry reads is judged field by field below)
             missing = sorted(deps - kparams)
             if not missing:
                 # finer than whole parameters: the value reads x.year, x.month, x.day while the key holds x.dayofyear only - which parts of an object (a parameter,
@@ -769,10 +810,28 @@ def memo_tables(ctx, fn, ps):
                     return z
                 kroots = {root_(k_) for k_ in katoms}
                 # (elements of loops the key does not speak about - the sources tried in turn for one answer - are not what the entry is "for")
-                missing = sorted({fmt(a_) for a_ in _access_atoms(wv_, params) if (root_(a_)[0] == 'var' or root_(a_) in kroots) and not _determined(a_, katoms)})
+                read_ = set(_access_atoms(wv_, params))
+                if module_level:
+                    # one table for every object: the fields that select the formula (path conditions) are inputs as well
+                    for c, v_, _ in p.conds:
+                        if not any(s_ == table for s_ in T.subterms(c)):
+                            read_ |= {a_ for a_ in _access_atoms(c, params) if root_(a_) == V('self')}
+                missing = sorted({fmt(a_) for a_ in read_ if (root_(a_)[0] == 'var' or root_(a_) in kroots) and not _determined(a_, katoms)})
             # (the helper objects the table hangs from are not inputs: replacing one of them replaces the table with it)
             fields = {s_[2] for s_ in T.subterms(w.value) if s_[0] == 'attr' and holder_chain(s_) is not None and s_[2] != m and s_[2] not in holders}
             mutable = sorted(f_ for f_ in fields if owner_cls is not None and ctx.M.field_written_outside_init(owner_cls, f_))
+            if module_level:
+                mutable = [f_ for f_ in mutable if not _determined(('attr', V('self'), f_), katoms)]        # (a field whose current value is part of the key cannot go stale)
+            if not missing:
+                # the key mentions everything the entry reads - but does it CARRY it?  An argument that enters the key only through a many-to-one computation
+                # (bisect(self._instants, dt), dt.floor('D'), x // n) leaves many arguments under one key: equal entries for all of them is an argument about values
+                inj_ = _injective_atoms(Kw, params)
+                lossy_ = sorted({fmt(a_) for a_ in _access_atoms(wv_, params) if (a_[0] == 'var' or (a_[0] in ('attr', 'sub') and a_[1][0] == 'var')) and _determined(a_, katoms)
+                                 and not _determined(a_, inj_) and not (a_[0] == 'var' and a_[1] == 'self')})
+                if lossy_ and not module_level:
+                    verdict = ('other', 'the key %s is a many-to-one function of %s: that every %s filed under one key gives the same entry is an argument about values, not made here'
+                               % (fmt(Kw)[:60], ', '.join(lossy_), '/'.join(lossy_)))
+                    break
             if missing:
                 pin = _generation_tag(ctx, fn, ps, table, missing)
                 if pin is True:
@@ -1363,6 +1422,7 @@ def without_sound_memo_hits(ctx, rule, fn, ps, keyprefix):
     hits removed (a hit equals the miss that filled the entry) and the names of the tables, whose writes are not state in the sense of 'depends on history'."""
     memos = memo_tables(ctx, fn, ps)
     sound = set()
+    open_ = set()
     for m_, vd in sorted(memos.items()):
         if vd[0] == 'unsound':
             ctx.violation(rule, '%s answers from its memo %s only what it would compute afresh' % (fn.qn, m_), fn.site(),
@@ -1376,8 +1436,13 @@ def without_sound_memo_hits(ctx, rule, fn, ps, keyprefix):
             else:
                 ctx.holds(rule, '%s: memo %s is per instance and keyed by everything its entries depend on (%s)' % (fn.qn, m_, fmt(vd[1])), fn.site())
                 sound.add(m_)
-    keep = [p for p in ps if not any(c_[0] == 'cmp' and c_[1] == 'in' and v_ and c_[3][0] == 'attr' and self_chain(c_[3]) is not None and c_[3][2] in sound for c_, v_, _ in p.conds)]
-    return keep, sound
+        elif vd[0] == 'other' and 'many-to-one' in vd[1]:
+            # a memo whose soundness is an argument about values: what it stores is memo entries, not history-dependent state in the sense of the callers' rules
+            ctx.undecided(rule, '%s answers from its memo %s only what it would compute afresh' % (fn.qn, m_), fn.site(), vd[1])
+            open_.add(m_)
+    keep = [p for p in ps if not any(c_[0] == 'cmp' and c_[1] == 'in' and v_ and c_[3][0] == 'attr' and (self_chain(c_[3]) is not None or c_[3][1][0] == 'mod') and c_[3][2] in sound
+                                     for c_, v_, _ in p.conds)]
+    return keep, sound | open_
 
 
 def fresh_object_summaries(ctx, cname, meth, policy=default_policy, oracle=None):
